@@ -79,6 +79,78 @@ def observe(exe, data, timeout=6.0):
         s.kill()
 
 
+def slow_reader(exe, n, size, pause, timeout=40.0):
+    """a client that pipelines initialize, initialized, n requests with an unknown method whose name has `size` bytes (each error
+    answer repeats it), shutdown, exit - and does not read the server's output for `pause` seconds, so that far more response
+    bytes are pending than the stdout pipe holds.  Every request must still get exactly one response, in order; exit status 0.
+    Returns None or a description of what went wrong."""
+    import subprocess
+    import threading
+    msgs = [{"jsonrpc": "2.0", "id": 1, "method": "initialize", "params": {"processId": None, "rootUri": None, "capabilities": {}}},
+            {"jsonrpc": "2.0", "method": "initialized", "params": {}}]
+    for k in range(n):
+        msgs.append({"jsonrpc": "2.0", "id": 2 + k, "method": "x/%d/" % k + "y" * size, "params": {}})
+    msgs.append({"jsonrpc": "2.0", "id": 2 + n, "method": "shutdown"})
+    msgs.append({"jsonrpc": "2.0", "method": "exit"})
+    data = b"".join(lspclient.frame(m) for m in msgs)
+    env = dict(os.environ, RUST_BACKTRACE="0", RUST_LIB_BACKTRACE="0")
+    p = subprocess.Popen([exe], stdin=subprocess.PIPE, stdout=subprocess.PIPE, stderr=subprocess.DEVNULL, bufsize=0, env=env)
+
+    def feed():
+        try:
+            p.stdin.write(data)
+            p.stdin.flush()
+        except Exception:  # noqa
+            pass
+    th = threading.Thread(target=feed, daemon=True)
+    th.start()
+    time.sleep(pause)
+    out = bytearray()
+    got = {}
+
+    def suck():
+        while True:
+            b = p.stdout.read(65536)
+            if not b:
+                break
+            out.extend(b)
+    rd = threading.Thread(target=suck, daemon=True)
+    rd.start()
+    rd.join(timeout)
+    try:
+        code = p.wait(timeout=5)
+    except subprocess.TimeoutExpired:
+        code = None
+    try:
+        p.kill()
+    except Exception:  # noqa
+        pass
+    for fh in (p.stdin, p.stdout):
+        try:
+            fh.close()
+        except Exception:  # noqa
+            pass
+    ids, pos, raw = [], 0, bytes(out)
+    while pos < len(raw):
+        i = raw.find(b"\r\n\r\n", pos)
+        if i < 0:
+            return "trailing bytes without a frame head: %r" % raw[pos:pos + 60]
+        try:
+            ln = int(raw[pos:i].decode("ascii").split(":")[1])
+            body = json.loads(raw[i + 4:i + 4 + ln].decode("utf-8"))
+        except Exception as e:  # noqa
+            return "malformed frame at byte %d: %s" % (pos, e)
+        if "id" in body and "method" not in body:
+            ids.append(body["id"])
+        pos = i + 4 + ln
+    if ids != list(range(1, n + 3)):
+        missing = [k for k in range(1, n + 3) if k not in ids]
+        return "responses carry the ids %r...; missing %r (of %d requests), exit status %r" % (ids[:8], missing[:8], n + 2, code)
+    if code != 0:
+        return "exit status %r after shutdown/exit" % code
+    return None
+
+
 def gen(ctx):
     cases = []  # (origin, session, byte data, command)
     maxlen = 5 if ctx.thorough() else 3
@@ -145,6 +217,19 @@ def run(ctx):
                            encoding="status, #responses, then (id, 0=result 1=ServerNotInitialized 2=InvalidRequest 3=MethodNotFound)*",
                            what="response stream / exit status differ from the lifecycle specification (Spec/Session.v), "
                                 "which the model is proved to implement (C18_conformance)"))
+    # a client that is slow to read: responses must wait in the pipe, not get lost
+    slow_cfg = [(30, 16384, 2.5), (200, 2048, 1.5)] + ([(60, 65536, 4.0)] if ctx.thorough() else [])
+    slow_bad = []
+    for (n, size, pause) in slow_cfg:
+        why = slow_reader(exe, n, size, pause)
+        if why and all(slow_reader(exe, n, size, pause) for _ in range(2)):
+            slow_bad.append((n, size, pause, why))
+    for n, size, pause, why in slow_bad[:1]:
+        ctx.violation(dict(kind="oracle", property="C18", slow_reader=dict(requests=n, method_name_bytes=size, pause_s=pause), what=
+                           "a client that reads the output only after a pause (more response bytes pending than the stdout pipe holds) does "
+                           "not get exactly one response per request in order: " + why))
+        confirmed.append(("slow", n, size))
+    ctx.cov["slow_reader_sessions"] = [dict(requests=n, method_name_bytes=s, pause_s=p) for n, s, p in slow_cfg]
     # kernel judge on a sample: the same comparison made by coqc's VM
     kfail = []
     nk = 0
@@ -166,7 +251,7 @@ def run(ctx):
         "distinct_nontrivial": len(set(c[2] for c in cases if len(c[1]) >= 2)),
         "rule": "every message sequence of length <= %d over the 8-symbol session alphabet (exhaustive), random longer sessions including "
                 "odd request/notification combinations, and byte prefixes of sessions followed by end-of-input; each run in a fresh "
-                "server process; non-trivial = distinct byte stream with >= 2 messages" % (5 if ctx.thorough() else 3),
+                "server process; plus pipelined sessions whose client reads only after a pause with hundreds of KiB of responses pending; non-trivial = distinct byte stream with >= 2 messages" % (5 if ctx.thorough() else 3),
         "exhaustive": True,
         "input_histogram": hist,
         "traces_validated_against_impl": len(cases),
@@ -187,6 +272,11 @@ def replay(ctx, path):
     r = json.load(open(path))
     exe, _ = common.build_server()
     judge, _ = common.build_judge()
+    if "slow_reader" in r:
+        c = r["slow_reader"]
+        why = slow_reader(exe, c["requests"], c["method_name_bytes"], c["pause_s"])
+        print(why or "every request answered, in order; exit status 0")
+        return 1 if why else 0
     if "session" not in r:
         print(json.dumps(r, indent=1))
         return 1
